@@ -186,13 +186,15 @@ PROPS["C16"] = dict(
               "C16_string_validates_then_builds", "C16_deref_is_source", "C16_no_memory_errors",
               "C16_count_is_owners", "C16_blocks_live_while_owned", "C16_released_exactly_once",
               "C16_valid_iff_encoding", "C16_valid_up_to_is_the_longest_valid_prefix",
-              "C16_valid_iff_up_to_everything", "C16_decode_encode", "C16_encode_injective", "C16_nonvacuous"],
+              "C16_valid_iff_up_to_everything", "C16_decode_encode", "C16_encode_injective", "C16_nonvacuous",
+              "C16_code_deserialization_validates"],
     engines=[("bytesdiff", [])],
     rule="bytesdiff: 250 (quick) / 1500 (thorough) scripts over 10 constructor paths (slice, From<&[u8]>, "
          "Cow borrowed/owned, Vec with excess / zero / unused capacity, Box, exact and growing iterators), "
          "clone (also From<&SharedBytes>), deref, drop here or on another thread; each step's net ledger "
          "effect and bytes are compared with Ref.Bytes inside Coq; ~4000 (quick) / ~37000 (thorough) byte "
-         "strings through std::str::from_utf8 (+valid_up_to) and SharedString::from_utf8 compared with "
+         "strings through std::str::from_utf8 (+valid_up_to), SharedString::from_utf8 and serde deserialization "
+         "from raw bytes (visit_bytes and visit_byte_buf of SharedString and SharedBytes) compared with "
          "Ref.Utf8; monitors: dealloc layout = alloc layout, no unknown block freed, nothing left after the "
          "last drop incl. 30 / 200 multi-threaded clone/drop storms, eq/ord/hash/partial_cmp as slices.",
     trusted_base=["accounting allocator harness/src/ledger.rs", "System allocator"],
@@ -400,15 +402,15 @@ sys_prop(
     "ill-formed UTF-8 and stays within i64, StringLoader keeps the bytes of exactly the well-formed strings.  "
     "Error ids/wrapping, FileContent variants, "
     "retry after repair are checked by the correspondence (traces of reads and loader calls compared verbatim).",
-    ["Proofs/Load.v", "Proofs/Utf8.v", "Proofs/Loaders.v", "Tie/Error.v", "Tie/LoadFromSource.v", "Tie/Dirs.v", "Tie/Loaders.v", "Tie/Graph.v",
+    ["Proofs/Load.v", "Proofs/Utf8.v", "Proofs/Loaders.v", "Tie/Error.v", "Tie/LoadFromSource.v", "Tie/Dirs.v", "Tie/Loaders.v", "Tie/Graph.v", "Tie/Fs.v",
      "Props/C03.v"], ["Props/C03.vo"],
     ["C03_code_or_is_model_or", "C03_code_error_conversions_keep_the_class", "C03_code_load_error_names_the_asked_id", "C03_or_prefers_the_higher_class",
      "C03_code_load_from_source_is_model_up_to_3_extensions", "C03_first_readable_decodable_extension_wins",
      "C03_all_fail_highest_class_error_goes_to_default", "C03_empty_extension_list_goes_to_default", "C03_code_default_extension_list",
-     "C03_code_path_of_entry", "C03_code_builtin_loaders_as_modelled", "C03_parse_loader_ignores_surrounding_whitespace",
+     "C03_code_path_of_entry", "C03_code_filesystem_source", "C03_code_builtin_loaders_as_modelled", "C03_parse_loader_ignores_surrounding_whitespace",
      "C03_trim_removes_exactly_the_surrounding_whitespace", "C03_parse_loader_rejects_ill_formed_utf8",
      "C03_parse_loader_stays_in_range", "C03_string_loader_keeps_the_bytes"],
-    ["Error", "Asset", "Key", "Flags", "Dirs", "Loaders", "Private"], ["loader-depends-on-delivery", "filesystem-load-differs"], mode="cold",
+    ["Error", "Asset", "Key", "Flags", "Dirs", "Loaders", "Private", "Fs"], ["loader-depends-on-delivery", "filesystem-load-differs"], mode="cold",
     extra_engines=[("loaddiff", [])])
 PROPS["C03"]["model_files"] = PROPS["C03"]["model_files"] + ["Ref/Utf8.v", "Ref/Loaders.v", "Corr/LoadCheck.v"]
 PROPS["C03"]["model_targets"] = PROPS["C03"]["model_targets"] + ["Corr/LoadCheck.vo"]
@@ -467,15 +469,15 @@ sys_prop(
     "the correspondence (visited set = model's reachable set; I/O traces equal).",
     ["Proofs/SysGrows.v", "Proofs/SysFrame.v", "Proofs/SysStatic.v", "Proofs/SysMap.v", "Proofs/SysReload.v",
      "Proofs/Dfs.v", "Proofs/RwProof.v", "Proofs/RwStep.v", "Proofs/RwPin.v", "Tie/Entry.v", "Tie/CallGraph.v",
-     "Tie/Graph.v", "Tie/Paths.v", "Proofs/SysGraph.v", "Props/C06.v"],
+     "Tie/Graph.v", "Tie/Paths.v", "Tie/Records.v", "Proofs/SysGraph.v", "Props/C06.v"],
     ["Props/C06.vo"],
     ["C06_loads_leave_reloader_state", "C06_reload_id_moves_only_in_a_pass", "C06_reload_bumps_id_by_one",
      "C06_each_affected_asset_once", "C06_watcher_reports_growth_once",
      "C06_value_read_after_a_reported_reload_is_as_new", "C06_code_forgets_dropped_dependencies", "C06_code_visits_each_asset_once",
      "C06_code_watcher_starts_at_the_current_id", "C06_code_pass_bookkeeping",
      "C06_a_pass_reloads_only_dependents_of_changes", "C06_a_notified_pass_reloads_only_dependents_of_changes",
-     "C06_nothing_recorded_never_reloaded"],
-    ["Entry", "CallGraph", "Deps", "Private", "Paths"],
+     "C06_nothing_recorded_never_reloaded", "C06_code_records_are_per_reloader"],
+    ["Entry", "CallGraph", "Deps", "Private", "Paths", "Records", "Anycache", "Asset"],
     ["watcher", "guard-not-pinned", "changed-outside-hot_reload", "hot_reload-returned-early", "stale-after-pass"],
     mode="hot", extra_engines=[("rwdiff", [])])
 
@@ -668,10 +670,10 @@ PROPS["C04"] = dict(
     level_note="Trusted: Coq kernel+VM, the harness (tree generator, archive writers of the zip and tar crates, "
                "answer printers), the checkers in Corr/SrcCheck.v.  I5: archives with the same member path "
                "twice are not generated.",
-    gen=["Archive", "Private", "Deps", "Embed"],
+    gen=["Archive", "Private", "Deps", "Embed", "Fs"],
     model_files=["Ref/Tree.v", "Ref/Archive.v", "Ref/Embed.v", "Corr/Common.v", "Corr/SrcCheck.v"],
     model_targets=["Corr/SrcCheck.vo"],
-    proof_files=["Proofs/Tree.v", "Proofs/Archive.v", "Proofs/Embed.v", "Tie/Archive.v", "Tie/Graph.v", "Tie/Embed.v", "Props/C04.v"],
+    proof_files=["Proofs/Tree.v", "Proofs/Archive.v", "Proofs/Embed.v", "Tie/Archive.v", "Tie/Graph.v", "Tie/Embed.v", "Tie/Fs.v", "Props/C04.v"],
     proof_targets=["Props/C04.vo"],
     props_module="Props.C04",
     theorems=["C04_listing_is_exactly_the_direct_children", "C04_listed_entries_are_readable_under_their_id",
@@ -679,7 +681,8 @@ PROPS["C04"] = dict(
               "C04_code_reads_whole_members", "C04_code_path_of_entry", "C04_code_parent_id", "C04_code_embed_macro",
               "C04_archive_index_answers_like_the_tree", "C04_member_order_is_irrelevant",
               "C04_implied_directory_members_are_redundant", "C04_archive_nonvacuous",
-              "C04_embedded_tables_are_an_archive_index", "C04_embedded_answers_like_the_tree"],
+              "C04_embedded_tables_are_an_archive_index", "C04_embedded_answers_like_the_tree",
+              "C04_code_filesystem_source"],
     engines=[("srcdiff", [])],
     rule=SRC_RULE,
     trusted_base=["zip / tar writers used to build the archives"],
